@@ -169,7 +169,10 @@ CHECKS.update({
                 'tokens, data equal to the predicted projection), compares a '
                 'deep identity-aware snapshot of the object before/after and '
                 'dumps twice; sweeten call order compared with the history '
-                'variable.'),
+                'variable. The dumps the repository\'s own tests and '
+                'documentation examples perform are recorded and validated by '
+                'TLC against Represent on class models extracted from the '
+                'live Dumper (Trace_Dump).'),
 })
 
 CHECKS.update({
